@@ -228,7 +228,9 @@ ApplyTo(r, payload, emit, outcome, wire, o, nev, hasfol, fol, extra(_, _, _)) ==
       \* delivered deletion naming them.  They are operations of the cleaning replica: explicit deletions (XD) that it
       \* has delivered to itself; whoever receives its state receives them in the delete set.  A replica with the
       \* clean-up switched off has none (its tombstones stay exactly the expected ones, C05_DeadExact).
-      CL == IF cfg[r].cf THEN {x \in Ids(emit.del) : x \in DOMAIN E2 /\ IsMark(E2, x)} \ ddel2 ELSE {}
+      \* (marks that are tombstones anyway - inside a removed subtree, or collected together with their parent - are not clean-up)
+      cand == IF cfg[r].cf THEN {x \in Ids(emit.del) : x \in DOMAIN E2 /\ IsMark(E2, x)} \ (ddel2 \cup Ids(o.gone)) ELSE {}
+      CL == IF cand = {} \/ ~WellFormed(E2, o) THEN cand ELSE cand \ ExpectedDead(E2, o.lst, Ids(o.gone), ddel2)
       XD2 == XD \cup CL
       R2 == ObsRep(o, R.dlv \cup InsIds(us), ddel2 \cup CL)
       \* implementation-level prediction (drift only): the transcription of TransactionMut::cleanup_fmt in Rich.tla, run on
